@@ -196,7 +196,7 @@ def handler_sweep(seed: int) -> dict[str, Any]:
                 for t in tails:
                     ops.append(("bytes", bytes([sid]) + t))
             else:
-                for sf in sfs[:10]:
+                for sf in sorted(set(sfs[:10] + sfs[-2:] + [x for x in sfs if x in (0x7E, 0x7F, 0x40, 0x3F)])):
                     for t in tails[:4]:
                         ops.append(("bytes", bytes([sid, sf]) + t))
                     ops.append(("bytes", bytes([sid, sf | 0x80])))
